@@ -12,16 +12,19 @@
   * rejections with the world unchanged, on every path: `opExchange_rel_dead` (dead entity),
     `opExchange_rel_empty` (both lists empty), `opExchange_rel_misfit` (a removed component absent or
     named twice, an added component present or named twice, a component both added and removed);
-    on the typed paths: `opExchange_rel_badRel` (a dead target, a relation on a non-relation
-    component, through `ExchangeN` a relation on a component that is not added);
+    `opExchange_rel_badRel` (a dead target, a relation on a non-relation component, through
+    `ExchangeN` and `Unsafe.Exchange` a relation on a component that is not added);
   * `opExchange_rel_accepted` — the converse for the component lists: an accepted call was on a live
     entity with fitting lists;
-  * `preCheck_ok_valid` — what a passed pre-validation of the typed paths says;
+  * `preCheck_ok_valid` — what a passed pre-validation says;
   * `Good.exchange` — iterating.
 
-  Through `Unsafe` a relation list that does not fit (missing / dead target / not a relation
-  component) is refused by `GetTable` / `createTable` AFTER the archetype was created: refused, but
-  not without effect (as for `Add` and `NewEntity`, see `Ark/Proofs/RelRefine.lean`, `guard`).
+  Since the repair of the `Unsafe` API (`ToCheckedRelationIDsForUnsafe`) a dead target, a
+  non-relation component and a relation on a component that is not added are refused by the
+  pre-validation on EVERY path, without effect.  What is still noticed only by `GetTable` /
+  `createTable` AFTER the archetype was created — refused, but not without effect — is a relation
+  component of the new archetype for which no relation is given and a relation component named
+  twice (as for `Add` and `NewEntity`, see `Ark/Proofs/RelRefine.lean`, `guard`).
   Kernel-only proofs, core Lean only.
 -/
 import Ark.Proofs.RelExchangeSpec
@@ -210,11 +213,12 @@ theorem opExchange_rel_misfit (run : ProbeRunner) (p : Path) (e : Ent) (add : Li
     · obtain ⟨k, _, hk⟩ := exchangeCore_reject run e add rem rels w hl ha hne hb h
       exact opExchange_rel_panic_same run p e add vals rem rels w hk
 
-/-- what a passed pre-validation of the typed paths says about the relations -/
-theorem preCheck_ok_valid (p : Path) (hp : p ≠ .unsafe_) (ids : List Comp) (w : World) :
+/-- what a passed pre-validation says about the relations (every path; membership in the added
+    components on `.typed` and — since the repair of the `Unsafe` API — `.unsafe_`) -/
+theorem preCheck_ok_valid (p : Path) (ids : List Comp) (w : World) :
     ∀ (rels : List RelID) {w' : World}, preCheck p ids rels w = .ok () w' →
       ∀ (r : RelID), r ∈ rels → (r.target.isZero = true ∨ w.alive r.target = true) ∧
-        w.isRelComp r.comp = true ∧ (p = .typed → (Mask.ofList ids).get r.comp = true) := by
+        w.isRelComp r.comp = true ∧ (p ≠ .map1 → (Mask.ofList ids).get r.comp = true) := by
   intro rels
   induction rels with
   | nil => intro _ _ r hr; cases hr
@@ -224,30 +228,39 @@ theorem preCheck_ok_valid (p : Path) (hp : p ≠ .unsafe_) (ids : List Comp) (w 
       rcases checkRelationTarget_cases r0.target w with k | k
       · exact k
       · cases p with
-        | unsafe_ => exact absurd rfl hp
+        | unsafe_ => simp [preCheck, preCheckTyped, M.forM', bind, M.bind, k] at hok
         | map1 => simp [preCheck, preCheckMap, M.forM', bind, M.bind, k] at hok
         | typed => simp [preCheck, preCheckTyped, M.forM', bind, M.bind, k] at hok
     have hc : checkRelationComponent r0.comp w = .ok () w := by
       rcases checkRelationComponent_cases r0.comp w with k | k
       · exact k
       · cases p with
-        | unsafe_ => exact absurd rfl hp
+        | unsafe_ => simp [preCheck, preCheckTyped, M.forM', bind, M.bind, ht, k] at hok
         | map1 => simp [preCheck, preCheckMap, M.forM', bind, M.bind, ht, k] at hok
         | typed => simp [preCheck, preCheckTyped, M.forM', bind, M.bind, ht, k] at hok
-    have hm : p = .typed → (Mask.ofList ids).get r0.comp = true := by
+    have hm : p ≠ .map1 → (Mask.ofList ids).get r0.comp = true := by
       intro hpt
-      subst hpt
       cases hg : (Mask.ofList ids).get r0.comp with
       | true => rfl
-      | false => simp [preCheck, preCheckTyped, M.forM', bind, M.bind, ht, hc, M.assert, hg] at hok
+      | false =>
+        cases p with
+        | map1 => exact absurd rfl hpt
+        | unsafe_ =>
+          simp [preCheck, preCheckTyped, M.forM', bind, M.bind, ht, hc, M.assert, hg] at hok
+        | typed =>
+          simp [preCheck, preCheckTyped, M.forM', bind, M.bind, ht, hc, M.assert, hg] at hok
     have hrest : preCheck p ids rest w = .ok () w' := by
       cases p with
-      | unsafe_ => exact absurd rfl hp
+      | unsafe_ =>
+        have hg := hm (by decide)
+        simp only [preCheck, preCheckTyped, M.forM', bind, M.bind, ht, hc, M.assert, hg,
+          if_true] at hok ⊢
+        exact hok
       | map1 =>
         simp only [preCheck, preCheckMap, M.forM', bind, M.bind, ht, hc] at hok ⊢
         exact hok
       | typed =>
-        have hg := hm rfl
+        have hg := hm (by decide)
         simp only [preCheck, preCheckTyped, M.forM', bind, M.bind, ht, hc, M.assert, hg,
           if_true] at hok ⊢
         exact hok
@@ -266,15 +279,16 @@ theorem preCheck_ok_valid (p : Path) (hp : p ≠ .unsafe_) (ids : List Comp) (w 
         | false => simp [hrc] at hc
     · exact ih hrest r hr'
 
-/-- **rejection** (typed paths): a relation naming a dead target or a component that is not a
-    relation component — and, through `ExchangeN` (`Path.typed`), a component that is not added —
-    is refused before anything is touched -/
-theorem opExchange_rel_badRel (run : ProbeRunner) (p : Path) (hp : p ≠ .unsafe_) (e : Ent)
+/-- **rejection** (every path, since the repair of the `Unsafe` API): a relation naming a dead
+    target or a component that is not a relation component — and, through `ExchangeN`
+    (`Path.typed`) and `Unsafe.Exchange`, a component that is not added — is refused before
+    anything is touched -/
+theorem opExchange_rel_badRel (run : ProbeRunner) (p : Path) (e : Ent)
     (add : List Comp) (vals : List (Comp × Val)) (rem : List Comp) (rels : List RelID) (w : World)
     (hl : w.isLocked = false)
     (hbad : ∃ (r : RelID), r ∈ rels ∧
       ((r.target.isZero = false ∧ w.alive r.target = false) ∨ w.isRelComp r.comp = false ∨
-        (p = .typed ∧ (Mask.ofList add).get r.comp = false))) :
+        (p ≠ .map1 ∧ (Mask.ofList add).get r.comp = false))) :
     ∃ (k : PanicKind), opExchange run p e add vals rem rels w = .panic k w := by
   cases ha : w.alive e with
   | false => exact opExchange_rel_dead run p e add vals rem rels w hl ha
@@ -282,7 +296,7 @@ theorem opExchange_rel_badRel (run : ProbeRunner) (p : Path) (hp : p ≠ .unsafe
     rcases preCheck_cases p add rels w with h1 | ⟨k, h1⟩
     · exfalso
       obtain ⟨r, hr, hb⟩ := hbad
-      obtain ⟨v1, v2, v3⟩ := preCheck_ok_valid p hp add w rels h1 r hr
+      obtain ⟨v1, v2, v3⟩ := preCheck_ok_valid p add w rels h1 r hr
       rcases hb with ⟨b1, b2⟩ | b | ⟨b1, b2⟩
       · rcases v1 with v | v
         · rw [v] at b1; cases b1
